@@ -41,7 +41,9 @@ func cmdRun(args []string) {
 	workers := fs.Int("workers", 16, "")
 	verbose := fs.Bool("v", false, "")
 	logs := fs.Bool("logs", false, "")
+	dbgPure := fs.Bool("dbgpure", false, "")
 	fs.Parse(args)
+	sx.DebugPure = *dbgPure
 	t0 := time.Now()
 	p, err := sx.Load(*repo, *hdir, *tags, "engine")
 	if err != nil {
